@@ -57,7 +57,8 @@ def oracle_batch(progs, fuel=200):
     """progs: list of Prog -> list of ('ok', {rel: sorted rows}, rounds) | ('undef'|'stuck'|'fuel'|'parse-error', msg)"""
     exe = C.ocaml_driver("datalog")
     inp = "".join(p.render_sexpr(fuel=fuel) + "\n" for p in progs)
-    rc, out, err = C.sh([exe], input=inp.encode("latin-1"), timeout=1800)
+    # the extracted evaluator is not tail recursive everywhere: give it a large stack (large programs of the thorough tier)
+    rc, out, err = C.sh(["bash", "-c", "ulimit -s unlimited 2>/dev/null || ulimit -s 4000000 2>/dev/null; exec \"$0\"", exe], input=inp.encode("latin-1"), timeout=1800)
     if rc != 0:
         raise C.BuildError("oracle driver failed rc=%s: %s" % (rc, err[-500:]))
     lines = out.split("\n")
